@@ -4,10 +4,23 @@ never by name. Each returns a def path or None (callers fail closed on None / am
 _cache = {}
 
 
+def is_wait_map(f, x):
+    """The wait-for map type: HashMap<u64, Identity>, or a private struct of the crate whose only field is that map
+    (a newtype with methods: the methods are ordinary crate-private helpers, so they are inlined where they are used)."""
+    if x.is_adt("std::collections::HashMap") and len(x.args) >= 2 and x.args[0].k == "uint" and x.args[1].is_adt("Identity"):
+        return True
+    if x.k == "adt" and x.defn in f.adts:
+        a = f.adts[x.defn]
+        vs = a.get("variants") or []
+        if a.get("kind", "struct") in ("struct", "Struct") and len(vs) == 1 and len(vs[0]["fields"]) == 1:
+            return is_wait_map(f, f.ty(vs[0]["fields"][0]["ty"]))
+    return False
+
+
 def _mentions_wait_map(f, tyid):
     t = f.ty(tyid)
     for x in t.walk():
-        if x.is_adt("std::collections::HashMap") and len(x.args) >= 2 and x.args[0].k == "uint" and x.args[1].is_adt("Identity"):
+        if is_wait_map(f, x):
             return True
     return False
 
